@@ -37,6 +37,7 @@ def case_strategy(draw, big=False):
                     'b': draw(st.floats(0, 1))})
     case['pts'] = pts
     case['nfpwr'] = gen.r6(draw(gen.logf(1e-3, 1e5))) if draw(st.booleans()) else None
+    case['timing'] = draw(st.integers(0, 4)) == 0      # time measurement must not influence any number
     return case
 
 
